@@ -487,6 +487,36 @@ fn monitor(ctx: &Ctx, cj: &dyn Fn() -> Value) {
             }
         }
     }
+    // the first scalar of each of 4096 fresh threads: a per-thread generator keyed with fewer than 12 bits of seed
+    // material must repeat one by pigeonhole (and one keyed with up to about 20 bits almost surely does)
+    {
+        let fresh = 4096usize;
+        let mut firsts: Vec<(BigUint, BigUint)> = Vec::with_capacity(fresh);
+        for _ in 0..fresh / 64 {
+            let batch: Vec<(BigUint, BigUint)> = std::thread::scope(|s| {
+                let hs: Vec<_> = (0..64)
+                    .map(|_| {
+                        s.spawn(move || {
+                            let range = to_limbs(&(sm9::params().n.clone() - 1u32));
+                            (from_limbs(&gm_sm2::verif::random_u256()), from_limbs(&gm_sm9::u256::sm9_random_u256(&range)))
+                        })
+                    })
+                    .collect();
+                hs.into_iter().filter_map(|h| h.join().ok()).collect()
+            });
+            firsts.extend(batch);
+        }
+        ctx.calls(2 * fresh as u64);
+        for (idx, name) in ["sm2.random_u256", "sm9.sm9_random_u256"].iter().enumerate() {
+            let mut v: Vec<BigUint> = firsts.iter().map(|p| if idx == 0 { p.0.clone() } else { p.1.clone() }).collect();
+            let total = v.len();
+            v.sort();
+            v.dedup();
+            if v.len() != total || total != fresh {
+                ctx.violation(name, "monitor/first-scalars-of-fresh-threads-repeat", format!("{} distinct first scalars among {} fresh threads", v.len(), total), cj());
+            }
+        }
+    }
     // two fresh processes must not produce the same stream either (a process-wide generator with a fixed seed
     // passes the thread comparison above)
     let run = || -> Option<String> {
@@ -644,7 +674,7 @@ pub fn run(ctx: &Arc<Ctx>) {
     // ---- monitor
     let before = ctx.violations().len();
     eval(ctx, &Case::Monitor);
-    ctx.cov("monitor", json!({"kind": "statistical monitor, not model checking", "draws_per_sampler": 4096, "checks": ["no duplicates", "in range", "bits 0..=250 within 8 sigma", "fresh threads give different streams", "8 concurrent threads draw pairwise different scalars", "fresh processes give different streams"], "violations": ctx.violations().len() - before}));
+    ctx.cov("monitor", json!({"kind": "statistical monitor, not model checking", "draws_per_sampler": 4096, "checks": ["no duplicates", "in range", "bits 0..=250 within 8 sigma", "fresh threads give different streams", "8 concurrent threads draw pairwise different scalars", "the first scalars of 4096 fresh threads are pairwise different", "fresh processes give different streams"], "violations": ctx.violations().len() - before}));
     ctx.assume("'every bit position is unbiased' and 'seeded from the operating system' are statements about a distribution; bounded enumeration cannot decide them. They are only monitored (coverage.structural.monitor).");
     let _ = gdbg::<u8>;
 }
